@@ -33,6 +33,7 @@ inductive Val where
   | int (n : Nat)
   | fn (ctx : Nat) (fid : Nat)   -- EvalFuncVar: defining global context, code id
   | mod (ctx : Nat)              -- module object: its `__dict__` is the table of context `ctx`
+  | names (l : List String)      -- a list of strings (the value of a module's `__all__`)
 deriving DecidableEq, Repr, Inhabited
 
 inductive Exc where
@@ -71,6 +72,7 @@ inductive Stmt where
   | fromStar (m : Name) (level : Nat)                       -- from [..]m import *
   | fromDot (level : Nat) (nm : String) (asname : Option String)             -- from . import nm [as a]
   | setctx (n : Name)                                       -- pyscript.set_global_ctx("n")
+  | setAll (l : List String)                                -- __all__ = ["a", …]
 deriving Repr, Inhabited
 
 abbrev Block := List Stmt
@@ -81,10 +83,28 @@ structure FuncDef where
   body : Block
 deriving Repr, Inhabited
 
-/-- the code that exists: function bodies by id, source files by path -/
+/-- Shapes of the import code that were repaired (`fix:` commits); `false` = the shape before the repair.
+* `starAll`   – `ast_importfrom`, `*` branch: a list-valued `__all__` of the module decides what is imported (C11-F6)
+* `relPkg`    – `module_import`, relative branch: an importer that is a plain module (its dotted name is not the
+                directory it lives in) starts from its package's name (C11-F1)
+* `dottedRel` – `module_import`, absolute branch: the plain-file candidate of a dotted name carries its package
+                directory as `rel_import_path` (C11-F4) -/
+structure Cfg where
+  starAll : Bool
+  relPkg : Bool
+  dottedRel : Bool
+deriving Repr, Inhabited, DecidableEq
+
+/-- the code as it is now -/
+def Cfg.current : Cfg := { starAll := true, relPkg := true, dottedRel := true }
+/-- the code before the repairs of C11-F1, F4, F6 -/
+def Cfg.preFix : Cfg := { starAll := false, relPkg := false, dottedRel := false }
+
+/-- the code that exists: function bodies by id, source files by path, and which shape the import code has -/
 structure World where
   funcs : List FuncDef
   files : List (Path × Block)
+  cfg : Cfg := Cfg.current
 deriving Repr, Inhabited
 
 /-! ## state -/
@@ -267,23 +287,34 @@ def isAppsRel : Option Path → Bool
   | some ("apps" :: _ :: _) => true
   | _ => false
 
+/-- `ctx_name = self.name`, and (repaired shape) `if ctx_name.replace(".", "/") != path: ctx_name = ctx_name[0:rfind(".")]`:
+the importer is a plain module inside the package directory `path`, relative names start at its package -/
+def relBase (cfg : Cfg) (self : Ctx) (path : Path) : Name :=
+  if cfg.relPkg ∧ self.name ≠ path then self.name.dropLast else self.name
+
+/-- `rel_import_path` of the plain-file candidate `<root>/<module_path>.py` of an absolute import:
+`os.path.dirname(...)` when the name is dotted (repaired shape), else the historical value `dflt` -/
+def plainRel (cfg : Cfg) (root : String) (m : Name) (dflt : Option Path) : Option Path :=
+  if cfg.dottedRel ∧ 2 ≤ m.length then some (root :: m.dropLast) else dflt
+
 /-- `file_paths` of `module_import(module_name, import_level)` called on context `self` -/
-def candidates (self : Ctx) (m : Name) (level : Nat) : Except Exc (List Cand) :=
+def candidates (cfg : Cfg) (self : Ctx) (m : Name) (level : Nat) : Except Exc (List Cand) :=
   if level > 0 then
     match self.rel with
     | none => .error .importErr
     | some rp =>
-      match upLevels (level - 1) (stripInit rp) self.name with
+      match upLevels (level - 1) (stripInit rp) (relBase cfg self (stripInit rp)) with
       | .error e => .error e
       | .ok (path, cn) =>
         let cn' := cn ++ m
         .ok [⟨cn', path ++ m ++ ["__init__"], some (path ++ m)⟩, ⟨cn', path ++ m, some path⟩]
   else
     let apps := if isAppsRel self.rel then
-        [⟨"apps" :: m, "apps" :: m ++ ["__init__"], some ("apps" :: m)⟩, ⟨"apps" :: m, "apps" :: m, some ("apps" :: m)⟩]
+        [⟨"apps" :: m, "apps" :: m ++ ["__init__"], some ("apps" :: m)⟩,
+         ⟨"apps" :: m, "apps" :: m, plainRel cfg "apps" m (some ("apps" :: m))⟩]
       else []
     .ok (apps ++ [⟨"modules" :: m, "modules" :: m ++ ["__init__"], some ("modules" :: m)⟩,
-                  ⟨"modules" :: m, "modules" :: m, none⟩])
+                  ⟨"modules" :: m, "modules" :: m, plainRel cfg "modules" m none⟩])
 
 def hasModuleAt (h : Heap) (c : Nat) : Bool :=
   match h.ctxs[c]? with
@@ -322,7 +353,7 @@ def selfCtx (h : Heap) (c : Nat) : Ctx :=
 
 /-- first half of `module_import` (everything before `load_file`), run on the context `g` -/
 def importLookup (W : World) (h : Heap) (g : Nat) (m : Name) (level : Nat) : Lookup :=
-  match candidates (selfCtx h g) m level with
+  match candidates W.cfg (selfCtx h g) m level with
   | .error e => .err e
   | .ok cds =>
     match findLoaded h cds with
@@ -369,6 +400,22 @@ def isPublic (k : String) : Bool := !(k.startsWith "_")
 def bindStar (st : St) : Table → St
   | [] => st
   | (k, v) :: r => bindStar (if isPublic k then writeSym st k v else st) r
+
+/-- `mod.__dict__.get("__all__")` when it is a list -/
+def allOf (t : Table) : Option (List String) :=
+  match tget t "__all__" with
+  | some (.names l) => some l
+  | _ => none
+
+/-- which rule the `*` branch of `ast_importfrom` applies to the module whose table is `t` -/
+def starNames (cfg : Cfg) (t : Table) : Option (List String) := if cfg.starAll then allOf t else none
+
+/-- the `*` branch of `ast_importfrom`: exactly the names of a list-valued `__all__` (each `getattr(mod, name)`, so a
+missing one raises AttributeError), otherwise every key that does not start with `_` -/
+def bindStarC (cfg : Cfg) (st : St) (c : Nat) : St × Option Exc :=
+  match starNames cfg (st.h.tab c) with
+  | some l => bindFrom st c (l.map (fun n => (n, none)))
+  | none => (bindStar st (st.h.tab c), none)
 
 /-! ## results -/
 
@@ -493,11 +540,15 @@ def execStmt (W : World) : Nat → St → Stmt → Res
       match r.val with
       | .error e => ⟨r.st, .exc e⟩
       | .ok none => ⟨r.st, .exc .notFound⟩
-      | .ok (some c) => ⟨bindStar r.st (r.st.h.tab c), .norm⟩
+      | .ok (some c) =>
+        match bindStarC W.cfg r.st c with
+        | (st', none) => ⟨st', .norm⟩
+        | (st', some e) => ⟨st', .exc e⟩
     | .setctx nm =>
       match regGet st.h.reg nm with
       | none => ⟨st, .exc .name⟩
       | some c => ⟨{ h := { st.h with nset := st.h.nset + 1 }, p := setGlobalCtx st.p c }, .norm⟩
+    | .setAll l => ⟨assignVar st "__all__" (.names l), .norm⟩
 
 /-- a statement list (function body, module body, try body) -/
 def execBlock (W : World) : Nat → St → Block → Res
